@@ -812,14 +812,18 @@ class C23:
                     if op.get("cancel_after") is not None:
                         sub = loop.create_task(fn(), name="%s.r%d" % (me, op["uid"]))
                         loop.streams[sub.get_name()] = loop.rng.fork("op", op["uid"], "sub")
-                        h = loop.call_later(op["cancel_after"], sub.cancel)
+                        fired = []
+                        h = loop.call_later(op["cancel_after"], lambda: (fired.append(1), sub.cancel()))
                         try:
                             got = ("ok", await sub)
                         except asyncio.CancelledError:
                             if not sub.cancelled():
                                 raise
-                            cancelled = True
-                            got = ("cancelled",)
+                            if fired:
+                                cancelled = True
+                                got = ("cancelled",)
+                            else:   # nobody cancelled this request
+                                got = ("err", "CancelledError", "request was not cancelled by anyone")
                         except TemplateNotFoundError:
                             got = ("err", "TemplateNotFoundError")
                         except (SimDeadlock, SimStepCap):
@@ -832,8 +836,13 @@ class C23:
                             got = ("ok", await fn())
                         except TemplateNotFoundError:
                             got = ("err", "TemplateNotFoundError")
-                        except (SimDeadlock, SimStepCap, asyncio.CancelledError):
+                        except (SimDeadlock, SimStepCap):
                             raise
+                        except asyncio.CancelledError:
+                            t = asyncio.current_task()
+                            if t is not None and t.cancelling():
+                                raise
+                            got = ("err", "CancelledError", "request was not cancelled by anyone")
                         except Exception as e:  # noqa: BLE001
                             got = ("err", type(e).__name__, str(e)[:200])
                 finally:
